@@ -82,6 +82,10 @@ func validateRSAKeyIfPresent(key interface{}, encryptedKey *etree.Element) (*rsa
 	if !ok || rsaKey == nil {
 		return nil, errors.New("expected key to be a *rsa.PrivateKey")
 	}
+	if rsaKey.N == nil || rsaKey.D == nil {
+		// a zero value, or a key that carries its public part only
+		return nil, errors.New("expected key to be a complete *rsa.PrivateKey")
+	}
 
 	// extract and verify that the public key matches the certificate
 	// this section is included to either let the service know up front
